@@ -79,10 +79,11 @@ Lemma dimensions_init_tie : Gen_Codec.dimensions_init = exp_dimensions_init.
 Proof. reflexivity. Qed.
 
 Definition exp_header_read :=
-  [ "cached_header = PoseHeaderCache.check_cache(reader.buffer)";
-    "if cached_header is not None:
-    reader.read_offset = PoseHeaderCache.end_offset
-    return cached_header";
+  [ "with PoseHeaderCache.lock:
+    cached_header = PoseHeaderCache.check_cache(reader.buffer)
+    if cached_header is not None:
+        reader.read_offset = PoseHeaderCache.end_offset
+        return copy.deepcopy(cached_header)";
     "start_offset = reader.read_offset";
     "version = reader.unpack(ConstStructs.float)";
     "dimensions = PoseHeaderDimensions.read(version, reader)";
@@ -119,7 +120,7 @@ Proof. reflexivity. Qed.
 Definition exp_numpy_body_init :=
   [ "if isinstance(data, np.ndarray):
     mask = confidence == 0
-    stacked_mask = np.stack([mask] * data.shape[-1], axis=3)
+    stacked_mask = np.stack([mask] * data.shape[-1], axis=-1)
     data = ma.masked_array(data, mask=stacked_mask)";
     "super().__init__(fps, data, confidence)" ].
 Lemma numpy_body_init_tie : Gen_Codec.numpy_body_init = exp_numpy_body_init.
